@@ -25,7 +25,7 @@ from ..report import Report
 
 def jobs_for(groups, t):
     jobs = []
-    nk = 2 if t == "quick" else 4
+    nk = 2 if t == "quick" else 6
     for key in sorted(groups):
         backend, decor, unit = key[3], key[5], key[2]
         for kidx in range(nk):
